@@ -331,6 +331,10 @@ func (w *Worker) execOne(rc *simapi.RunConfig) {
 		r = w.runC03(rc)
 	case "cli-sched":
 		r = w.runC04CLI(rc)
+	case "analyzer-determinism":
+		r = w.runC02Analyzer(rc)
+	case "analyzer-history":
+		r = w.runC03Analyzer(rc)
 	case "analyzer-sched":
 		r = w.runC04Analyzer(rc)
 	case "analyzer-config":
